@@ -314,13 +314,9 @@ impl<'l, T: Debug> LocalQueue<'l, T> {
                             //可偷取的最大长度与本地队列可偷长度做比较
                             n.min(self.max_steal())
                                 //与其他队列当前长度的一半做比较
-                                .min(
-                                    another
-                                        .capacity()
-                                        .saturating_sub(another.spare_capacity())
-                                        .saturating_add(1)
-                                        .saturating_div(2),
-                                )
+                                // (`n` is the victim's length as seen by the stealer; the victim's
+                                // `Worker::spare_capacity` is owner-only and races from here)
+                                .min(n.saturating_add(1).saturating_div(2))
                         })
                         .is_ok()
                     {
